@@ -93,10 +93,17 @@ impl PrettyPrint for MechSet {
 }
 
 impl Hash for MechSet {
+  // Equality of sets ignores the order of insertion, so the hash must too:
+  // combine the element hashes with a commutative operation.
   fn hash<H: Hasher>(&self, state: &mut H) {
+    let mut combined: u64 = 0;
     for x in self.set.iter() {
-      x.hash(state)
+      let mut element_hasher = std::collections::hash_map::DefaultHasher::new();
+      x.hash(&mut element_hasher);
+      combined = combined.wrapping_add(element_hasher.finish());
     }
+    self.set.len().hash(state);
+    combined.hash(state);
   }
 }
 
